@@ -290,8 +290,11 @@ pub fn judge(w: &World, r: &WorldResult) -> (Vec<Finding>, BTreeMap<String, u64>
                 if party.alloc_limit.is_some() {
                     *counters.entry("memory_pressure_party_completed".into()).or_insert(0) += 1;
                 }
-                if party.build.is_some() {
-                    *counters.entry("nodebug_build_party_completed".into()).or_insert(0) += 1;
+                if let Some(k) = party.cpus {
+                    *counters.entry(format!("party_on_{k}_cpus_completed")).or_insert(0) += 1;
+                }
+                if let Some(b) = &party.build {
+                    *counters.entry(format!("{b}_build_party_completed")).or_insert(0) += 1;
                 }
                 for (si, (s, (o, _))) in party.steps.iter().zip(outs.iter()).enumerate() {
                     if s.mode == Mode::Warm {
@@ -396,7 +399,7 @@ pub struct Plan {
     pub corpus: Vec<CorpusEntry>,
     pub n_corpus: u64,
     pub tier: Tier,
-    /// thorough tier: every case also has a process party running the no-debug-assertions build
+    /// every case with process parties also has one running the no-debug-assertions build (and some a development build)
     pub nodebug_parties: bool,
 }
 
@@ -404,7 +407,7 @@ impl Plan {
     pub fn load(t: &str) -> Result<Plan, String> {
         let corpus = load_corpus()?;
         let n = corpus.len() as u64;
-        Ok(Plan { corpus, n_corpus: n, tier: tier(t), nodebug_parties: t == "thorough" || std::env::var("VERIF_NODEBUG_IN_QUICK").is_ok() })
+        Ok(Plan { corpus, n_corpus: n, tier: tier(t), nodebug_parties: true })
     }
     pub fn n_cases(&self) -> u64 {
         self.n_corpus + self.tier.generated + self.tier.ill_typed + self.tier.big + self.tier.concurrent + self.tier.huge + self.tier.deep
@@ -505,7 +508,9 @@ pub fn make_world(plan: &Plan, seed: u64, idx: u64) -> (World, String, Prng) {
         let e = &plan.corpus[idx as usize];
         ("corpus", e.name.clone(), e.src.clone())
     } else if idx < plan.n_corpus + plan.tier.generated {
-        ("generated", format!("gen-{idx}"), gen::program(&mut p))
+        // one in twenty: constant arithmetic at the boundaries of the number types
+        let src = if p.chance(1, 20) { gen::const_arith_program(&mut p) } else { gen::program(&mut p) };
+        ("generated", format!("gen-{idx}"), src)
     } else if idx < plan.n_corpus + plan.tier.generated + plan.tier.ill_typed {
         ("ill_typed", format!("ill-{idx}"), gen::ill_typed(&mut p))
     } else if idx < plan.n_corpus + plan.tier.generated + plan.tier.ill_typed + plan.tier.big {
